@@ -258,7 +258,9 @@ def report_violations(pid, violations, kani_results):
         wit = None
         wlog = ""
         replay = None
-        if f["backend"].startswith("verus") and unit in P.WITNESS:
+        if not (f["backend"].startswith("verus") and unit in P.WITNESS) and not f["backend"].startswith("kani") and P.claimed()[pid].get("fallback_witness") in P.WITNESS:
+            unit = P.claimed()[pid]["fallback_witness"]   # structural obligations: the property's own native search supplies the witness
+        if (f["backend"].startswith("verus") or f["backend"] == "structural-scan") and unit in P.WITNESS:
             w = P.WITNESS[unit]
             if unit not in wit_cache:
                 try:
